@@ -71,6 +71,10 @@ def combos(tier):
         for gm in ("rr07", "rr07x"):
             lines = [l for l in ucl if not (gm == "rr07" and "THERM" in l)]
             out.append((f"uclchem/{gm}", {"net.ucl": lines}, ["uclchem"], gm, {}, b))
+            # the same with explicit grain species in the network (the grain density is then a derived quantity of their abundances)
+            if b[1] == "dense" or b[0] == "odeint":
+                out.append((f"uclchem/{gm}+grain-species", {"net.ucl": lines + ["H+,GRAIN-,NAN,H,GRAIN0,NAN,NAN,1.00e-10,0.00,0.0,10,41000", "E-,GRAIN0,NAN,GRAIN-,NAN,NAN,NAN,1.00e-10,0.00,0.0,10,41000"]},
+                            ["uclchem"], gm, {}, b))
         out.append(("kida+cooling", {"net.kida": kida + ["H          e-                     H+         e-         e-                                 1.000e-10  0.000e+00  0.000e+00 2.00e+00 0.00e+00 logn  4     10    300  3  9 1  1"]},
                     ["kida"], "", {"cooling": ["CIC_HI"]}, b))
     if tier == "quick":
